@@ -17,6 +17,10 @@ def check(spec):
         motion = (R.from_quat(q / np.linalg.norm(q)), np.array([rnd.uniform(-6, 6) for _ in range(3)]))
     sp0, rp0 = repl.patterns(spec['pair'])
     sp, rp = repl.patterns(spec['pair'], motion)
+    if spec.get('pattern_cell'):
+        # patterns that come with a cell of their own (loaded from a CIF / LAMMPS file): it has no bearing on where atoms go in the structure
+        sp.cell = np.eye(3) * spec['pattern_cell']
+        rp.cell = np.array([[spec['pattern_cell'], 0, 0], [1.0, spec['pattern_cell'] + 1.0, 0], [0, 0.5, spec['pattern_cell'] + 2.0]])
     S, cell = case['structure'], case['cell']
     N = len(S.positions)
     f = spec.get('f', 1.0)
@@ -158,6 +162,12 @@ def run(rec, tier, seed):
                     rec.case(repr(sorted(spt.items())), group='placement-small-tilt')
                     if msg:
                         rec.fail('placement', 'placement', "%s on %r" % (msg, spt), spt, 'C05/placement')
+                if s == 0 and pair in ('grow-shared', 'disjoint', 'swap-element'):
+                    spc = dict(spec, f=1.0, pattern_cell=[6.0, 40.0][(pi + ci) % 2])
+                    msg = check(spc)
+                    rec.case(repr(sorted(spc.items())), group='placement-pattern-with-cell')
+                    if msg:
+                        rec.fail('placement', 'placement', "%s on %r" % (msg, spc), spc, 'C05/placement')
                 # joint-motion invariance is only meaningful when the matched frame is determined: a collinear / symmetric search
                 # pattern with off-axis replacement atoms leaves the azimuth of the inserted atoms undetermined (DESIGN C05)
                 if s == 0 and pair in ('disjoint', 'swap-element', 'grow-planar'):
